@@ -6,7 +6,8 @@ namespace Driver.P05
 /-! Handler for `{"model":"c05", …}`: same request as `{"model":"run","op":"accept"}` (task table, oracle, observed trace,
 exit code) plus `"recorded"`: for each task whether the dependency DB holds a success record for it after the run.
 Answers whether the model can produce the trace (the acceptor of `Driver/Run.lean`) and evaluates the C05 monitors of
-`Model/RunFail.lean` on the IMPLEMENTATION's trace. -/
+`Model/RunFail.lean` on the IMPLEMENTATION's trace; with `"truthTrace"` (sent only when it differs from the trace: some
+task whose action the harness KNOWS to have failed was reported successful) the same monitors on that trace too. -/
 
 def handle (j : Json) : Json :=
   let inp := Driver.Run.parseInput j
@@ -25,7 +26,16 @@ def handle (j : Json) : Json :=
     let recorded := Driver.Run.boolsOf j "recorded" false
     let hasRec := jhas j "recorded"
     let failed := (List.range n).filter (failedIn tr)
-    Json.mkObj [
+    -- optional: the same statements on the "ground truth" trace (a `success` report of a task whose action is known
+    -- to have failed replaced by the failure report it should have been): what happened, not what was reported
+    let truth : Option (List Ev) := if jhas j "truthTrace" then (jarr j "truthTrace").mapM Driver.Run.parseEv else none
+    let truthMon : List (String × Json) := match truth with
+      | some tt => [("monitor_truth", Json.mkObj [
+          ("C05_truth_no_dependent_runs", Json.bool (monC05NoDependentRuns inp n tt)),
+          ("C05_truth_serial_stops", Json.bool (monC05SerialStops inp tt)),
+          ("C05_truth_not_recorded", Json.bool (!hasRec || monC05NotRecorded n tt recorded))])]
+      | none => []
+    Json.mkObj (truthMon ++ [
       ("accepted", Json.bool (v = .accepted)),
       ("skipped", Json.bool (v = .budget || (v = .rejected && b.capped))),
       ("matched", toJson b.matched),
@@ -38,6 +48,6 @@ def handle (j : Json) : Json :=
       ("failed", ofNats failed),
       ("dependents", mkArr (failed.map fun d =>
           ofNats ((List.range n).filter fun t => d ∈ depClosure inp n tr t))),
-      ("closure", ofNats (closureOf inp n tr))]
+      ("closure", ofNats (closureOf inp n tr))])
 
 end Driver.P05
